@@ -298,6 +298,46 @@ def bv_trim(v):
     return v
 
 
+def _byte_of(x, j):
+    """byte j of x, with the bitwise operators taken apart byte by byte: byte(a | b, j) is
+    byte(a, j) | byte(b, j) (the same for & and ^), and byte j of a constant is a constant - so
+    `(size | 0x0080_0000).to_be_bytes()[1]` is `0x80 | size.to_be_bytes()[1]`"""
+    if isinstance(x, tuple) and x and x[0] == "int":
+        return ("int", (x[1] >> (8 * j)) & 255)
+    if isinstance(x, tuple) and x and x[0] in ("and", "or", "xor") and isinstance(x[1], (set, frozenset)):
+        parts = [_byte_of(y, j) for y in x[1]]
+        consts = [p_[1] for p_ in parts if p_[0] == "int"]
+        rest = [p_ for p_ in parts if p_[0] != "int"]
+        if x[0] == "or":
+            c = 0
+            for v in consts:
+                c |= v
+            if c == 255:
+                return ("int", 255)
+            if c:
+                rest.append(("int", c))
+        elif x[0] == "and":
+            c = 255
+            for v in consts:
+                c &= v
+            if c == 0:
+                return ("int", 0)
+            if c != 255:
+                rest.append(("int", c))
+        else:
+            c = 0
+            for v in consts:
+                c ^= v
+            if c:
+                rest.append(("int", c))
+        if not rest:
+            return ("int", {"or": 0, "and": 255, "xor": 0}[x[0]])
+        if len(rest) == 1:
+            return rest[0]
+        return (x[0], frozenset(rest))
+    return ("byte", x, j)
+
+
 def byte_canon(n):
     """normal form of "byte j of the integer x" (j = 0 is the least significant), whichever way
     it is spelled: x.to_be_bytes()[k], x.to_le_bytes()[k], (x >> 8*j) as u8, x as u8"""
@@ -308,15 +348,15 @@ def byte_canon(n):
         w = BYTES[n[1][1]]
         j = n[2][1]
         if 0 <= j < w:
-            return ("byte", byte_canon(n[1][2]), (w - 1 - j) if n[1][0] == "tobe" else j)
+            return _byte_of(byte_canon(n[1][2]), (w - 1 - j) if n[1][0] == "tobe" else j)
     if k == "trunc" and n[1] == "u8":
         x = n[2]
         if x[0] in ("Shr", "ShrUnchecked") and x[2][0] == "int" and x[2][1] % 8 == 0:
-            return ("byte", byte_canon(x[1]), x[2][1] // 8)
+            return _byte_of(byte_canon(x[1]), x[2][1] // 8)
         if x[0] == "and" and len(x[1]) == 2 and ("int", 255) in x[1]:
             rest = [y for y in x[1] if y != ("int", 255)][0]
             return byte_canon(("trunc", "u8", rest))
-        return ("byte", byte_canon(x), 0)
+        return _byte_of(byte_canon(x), 0)
     if k in ("and", "or", "xor", "wadd"):
         return (k, frozenset(byte_canon(x) for x in n[1]))
     if k == "arr":
